@@ -46,7 +46,9 @@ func (h timerHeap) peek() *tentry  { return h[0] }
 //go:norace
 func (r *run) now(t *Thread) int64 {
 	v := r.clock
-	r.clock++
+	if !r.cfg.NoTick {
+		r.clock++
+	}
 	if t != nil {
 		h := mix(t.hb, r.clockHB, 21)
 		t.hb, r.clockHB = h, h
